@@ -25,7 +25,7 @@ var c15Progs = []struct {
 	{"wcoff_one_by_one", "[FORMAT \"WCOFF\"]\n[BITS 32]\n\tGLOBAL {C}\n\tGLOBAL {A}\n[SECTION .text]\n{A}:\n\tNOP\n{B}:\n\tRET\n{C}:\n\tMOV ECX,[ESP+4]\n\tRET\n", 3, true},
 }
 
-var c15Names = []string{"a", "aa", "a_", "A", "_a", "a1", "z", "Z9", "y_", "n234567890123456789012345678901234567890", "prefix89", "prefix89x", "prefix89y", "prefix89xy", "prefix89xyz",
+var c15Names = []string{"a", "aa", "a_", "A", "_a", "a1", "z", "Z9", "y_", "n234567890123456789012345678901234567890", "prefix89", "prefix89x", "prefix89y", "prefix89xy", "prefix89xyz", "kbd_wait", "mmio_done", "xmm_save", "Kick", "bnd_1", "zmm", "st_top", "cr_x", "dr7x",
 	"n23456789012345678901234567890123456789X", "Aa", "aA"}
 
 func c15Fill(tmpl string, names [3]string) string {
@@ -36,8 +36,8 @@ func c15Fill(tmpl string, names [3]string) string {
 
 func c15Scenario(tier string) *core.Scenario {
 	names := c15Names
-	if false {
-		names = []string{"a", "aa", "A", "a_", "prefix89", "prefix89x", "n234567890123456789012345678901234567890", "Z9"}
+	if tier != "thorough" {
+		names = []string{"a", "aa", "A", "a_", "aA", "prefix89", "prefix89x", "prefix89xy", "n234567890123456789012345678901234567890", "n23456789012345678901234567890123456789X", "Z9", "kbd_wait", "mmio_done", "xmm_save", "Kick"}
 	}
 	ref := [3]string{"first_sym", "second_sym", "third_sym"}
 	return &core.Scenario{
